@@ -16,9 +16,9 @@ from symex.poly import pall_in, pand, pconcat, pcontains, peq, pimplies, plen, p
 
 PROPERTY = "C03"
 BOUNDS = {
-    "quick": {"path": "'/' + <= 5 solver characters (printable ASCII without % ? #)", "maps": "10 rule maps x 3 insertion orders x strict/merge slashes on/off (4 settings)",
+    "quick": {"path": "'/' + <= 5 solver characters (printable ASCII without % ? #)", "maps": "12 rule maps x 3 insertion orders x strict/merge slashes on/off (4 settings)",
               "methods": "GET + one more"},
-    "thorough": {"path": "<= 7 characters", "maps": "10 maps x 6 orders x 4 slash settings"},
+    "thorough": {"path": "<= 7 characters", "maps": "12 maps x 6 orders x 4 slash settings"},
 }
 STUBS = ["urllib.parse.quote: per-byte model (safe set -> itself, else %XX), differentially tested at start-up"]
 ASSUMPTIONS = ["rule maps, insertion orders and slash settings are enumerated, not solver-quantified", "paths are printable ASCII"]
@@ -49,8 +49,17 @@ EXTRA_MAPS = [
 ]
 
 
+# further matching maps, appended last so that the indices above stay stable:
+# converters of different weight in a NON-final segment (priority must not depend on the
+# order in which the rules were added), and converters in two segments
+MORE_MAPS = [
+    ["/<string:a>/x", "/<int:b>/x", "/<float:f>/x"],
+    ["/v<string:a>/i/", "/v<int:b>/i/", "/<x>/<int:n>", "/<int:n>/<x>"],
+]
+
+
 def ALL_MAPS():
-    return MAPS + EXTRA_MAPS
+    return MAPS + EXTRA_MAPS + MORE_MAPS
 
 
 _seg_re = re.compile(r"<(?:(?P<conv>[a-zA-Z_]\w*)(?:\((?P<args>[^)]*)\))?:)?(?P<name>\w+)>")
@@ -469,10 +478,10 @@ def obligations(tier, seed, prop="C03"):
     out = []
     quick = tier == "quick"
     orders = [0, 3, 5] if quick else [0, 1, 2, 3, 4, 5]
-    for mi in range(len(MAPS)):
+    for mi in list(range(len(MAPS))) + [len(MAPS) + len(EXTRA_MAPS) + k for k in range(len(MORE_MAPS))]:
         for order in orders:
             for strict, merge in [(True, True), (True, False), (False, True), (False, False)]:
-                methods = ["GET", "POST"] if any("|" in t for t in MAPS[mi]) else ["GET"]
+                methods = ["GET", "POST"] if any("|" in t for t in ALL_MAPS()[mi]) else ["GET"]
                 for method in methods:
                     for n in (range(0, 6) if quick else range(0, 8)):
                         out.append({"name": f"match[map={mi},order={order},strict={strict},merge={merge},{method},n={n}]", "body": "body_match",
